@@ -664,6 +664,11 @@ impl Packet {
         let mut options_bytes: Vec<u8> = Vec::new();
         for (number, value_list) in self.options.iter() {
             for value in value_list.iter() {
+                // The extended length field holds at most 16 bits.
+                if value.len() > usize::from(u16::MAX) + 269 {
+                    return Err(MessageError::InvalidOptionLength);
+                }
+
                 let mut header: Vec<u8> = Vec::with_capacity(1 + 2 + 2);
                 let delta = number - options_delta_length;
 
